@@ -161,6 +161,12 @@ func (a *remoteAuthorizer) Execute(ctx heimdall.Context, sub *subject.Subject) e
 			var ai authorizationInformation
 
 			if err = json.Unmarshal(entry, &ai); err == nil {
+				// the cache entry may have been created by a rule specific instance of this authorizer
+				// with different expressions. So, the expressions of this instance are verified here as well
+				if err = a.verify(ctx, ai.Payload); err != nil {
+					return err
+				}
+
 				logger.Debug().Msg("Reusing authorization information from cache")
 
 				authInfo = &ai
